@@ -94,6 +94,81 @@ Example cli_equivalent_example :
     {| a_target := ""; a_queries := []; a_qtype := "once"; a_proto := ""; a_proto_file := "req.txt" |} = CliReq r.
 Proof. vm_compute. split; reflexivity. Qed.
 
+(** * Request encodings: the spellings of one logical query that only a proto
+    invocation can carry (element strings, prefix origin, elem/element mixes)
+    resolve to the same registration path, the same snapshot path and hence
+    the same ONCE view as the spelling the flag style builds *)
+
+Lemma flat_names q :
+  flat_map (fun e => e_name e :: key_vals (e_keys e)) (names_elem q) = q.
+Proof. induction q as [|n q IH]; cbn in *; [reflexivity | now f_equal]. Qed.
+
+Lemma to_strings_names o t q :
+  to_strings_gp (mk_gpath o t (names_elem q) []) false = q.
+Proof.
+  unfold to_strings_gp, mk_gpath. cbn [g_elem g_element app].
+  destruct q as [|n q]; [reflexivity|]. exact (flat_names (n :: q)).
+Qed.
+
+Lemma to_strings_element o t el :
+  to_strings_gp (mk_gpath o t [] el) false = el.
+Proof. reflexivity. Qed.
+
+Lemma to_strings_pre p :
+  to_strings_gp p true =
+  (if str_nonempty (g_target p) then [g_target p] else [])
+  ++ (if str_nonempty (g_origin p) then [g_origin p] else []) ++ to_strings_gp p false.
+Proof. unfold to_strings_gp. cbn [app]. now rewrite app_assoc. Qed.
+
+Definition names_ok (ql : path) : Prop := Forall (fun s => s <> "") ql.
+
+Lemma encode_request_resolves e tgt ql :
+  tgt <> "" -> names_ok ql ->
+  let r := encode_request e tgt ql in
+  g_target (cq_prefix r) = tgt /\ cq_more r = []
+  /\ sub_query r = tgt :: ql
+  /\ complete_path (cq_prefix r) (cq_path r) = Some ql.
+Proof.
+  intros Ht Hq.
+  assert (H0 : match ql with [] => True | q0 :: _ => str_nonempty q0 = true end).
+  { destruct Hq; [exact I | now apply str_nonempty_true]. }
+  pose proof (str_nonempty_true tgt Ht) as Htn.
+  destruct e, ql as [|q0 q]; cbn [encode_request]; cbv zeta;
+    (split; [reflexivity | split; [reflexivity|]]);
+    unfold sub_query, complete_path; rewrite !to_strings_pre;
+    cbn [cq_prefix cq_path];
+    rewrite ?to_strings_names, ?to_strings_element;
+    cbn [mk_gpath g_origin g_target]; rewrite ?Htn, ?H0; cbn; rewrite ?H0, ?andb_false_r, ?andb_true_r; cbn; rewrite ?andb_false_r; cbn; split; reflexivity.
+Qed.
+
+Lemma encode_request_once st e tgt ql :
+  tgt <> "" -> names_ok ql ->
+  once_view st (encode_request e tgt ql) = once_view st (encode_request EncElem tgt ql).
+Proof.
+  intros Ht Hq.
+  pose proof (encode_request_resolves e tgt ql Ht Hq) as H1.
+  pose proof (encode_request_resolves EncElem tgt ql Ht Hq) as H2.
+  cbv zeta in H1, H2.
+  destruct H1 as (T1 & M1 & _ & C1). destruct H2 as (T2 & M2 & _ & C2).
+  unfold once_view, snapshot, cq_paths. cbv zeta.
+  rewrite T1, T2, M1, M2. cbn [snapshot_entries]. rewrite C1, C2. reflexivity.
+Qed.
+
+Theorem cli_request_encodings_equivalent e tgt ql :
+  tgt <> "" -> names_ok ql ->
+  let r := encode_request e tgt ql in
+  sub_queries r = [tgt :: ql]
+  /\ complete_path (cq_prefix r) (cq_path r) = Some ql
+  /\ forall cfg ss, pipeline_once cfg ss r = pipeline_once cfg ss (encode_request EncElem tgt ql).
+Proof.
+  intros Ht Hq. pose proof (encode_request_resolves e tgt ql Ht Hq) as H1. cbv zeta in H1 |- *.
+  destruct H1 as (T1 & M1 & S1 & C1). split; [|split].
+  - unfold sub_queries. now rewrite M1, S1.
+  - exact C1.
+  - intros cfg ss. unfold pipeline_once. destruct (collector_start cfg) as [[managed cached]|]; [|reflexivity].
+    now apply encode_request_once.
+Qed.
+
 (** * Pure facts used by the relay proof *)
 
 Lemma qmatch_glob_free d : glob_free d = true -> forall k, qmatch d k = is_prefix d k.
